@@ -14,7 +14,6 @@ import (
 	"github.com/prometheus/prometheus/model/labels"
 	"github.com/prometheus/prometheus/storage"
 
-	engstore "github.com/thanos-community/promql-engine/execution/storage"
 )
 
 type poolReq struct {
@@ -90,7 +89,7 @@ func cmdPoolCases(args []string) {
 			a.maxt, a.step = c[0][0], c[0][1]
 			b.maxt, b.step = c[1][0], c[1][1]
 		}
-		pool := engstore.NewSelectorPool(NewStore(nil))
+		pool := newSelectorPool(NewStore(nil))
 		sa := pool.GetSelector(a.mint, a.maxt, a.step, a.ms, a.hints())
 		sb := pool.GetSelector(b.mint, b.maxt, b.step, b.ms, b.hints())
 		same := sa == sb
